@@ -360,7 +360,12 @@ class TransportMixIn(object):
 
         # Discard any response data and raise exception
         if response.getheader("content-length", 0):
-            response.read()
+            try:
+                response.read()
+            except Exception:
+                # The body has been cut short: the connection is not usable
+                # anymore, but the error to report is still the status
+                self.close()
         raise TransportError(
             host + handler, response.status, response.reason, response.msg
         )
@@ -979,12 +984,19 @@ class MultiCall(object):
         if len(self._job_list) < 1:
             # Should we alert? This /is/ pretty obvious.
             return
+        # The jobs of this batch are forgotten whatever happens: after a
+        # transport error, they must not be sent again with the next batch
+        jobs = self._job_list[:]
+        del self._job_list[:]
+
         request_body = "[ {0} ]".format(
-            ",".join(job.request() for job in self._job_list)
+            ",".join(job.request() for job in jobs)
         )
         responses = self._server._run_request(request_body)
-        del self._job_list[:]
         if not responses:
+            if not all(job.notify for job in jobs):
+                # Only a batch of notifications has no response at all
+                raise ProtocolError("Empty response to a batch of calls")
             responses = []
         elif isinstance(responses, utils.DictType):
             # The server answered the whole batch with a single object: this
